@@ -17,7 +17,7 @@ from .common import L
 ID = "C17"
 CANARY_IS_VIOLATION = True
 RUNS = {"quick": 9_000, "thorough": 180_000}
-BUDGET_S = {"quick": 60, "thorough": 800}
+BUDGET_S = {"quick": 120, "thorough": 800}
 CHUNK = 100
 RULE = ("each run splits a generated domain and problem into 1-4 overlapping per-agent files (overlaps textually identical), "
         "combines them with locate_domains under 2-4 tape-drawn discovery orders (add_dummy_actions in {F,T}), exports the "
@@ -375,6 +375,7 @@ def run(ctx):
     if cfg.draw(150 if ctx.tier == "quick" else 40) == 0:
         return run_fixture(ctx, cfg, ops, f)
     feat = C.draw_features(ctx)
+    feat["tiny_offsets"] = False  # the exporters print constants with 4 decimals (their stated precision)
     feat["max_actions"] = 2 + cfg.draw(3)
     feat["cond_numeric"] = False  # exporting conditions through the simplifying printers is C08's recorded finding
     W = C.World(ctx, feat, noise_level=0)
